@@ -10,7 +10,7 @@ CONSTANTS
   MaxKeys = 4
   MaxLs = 3
   MaxLegacy = 4
-  GoodKeys = {1, 2, 3, 4, 6}
+  GoodKeys = {1, 2, 3, 4, 6, 7}
   SvcListeners <- SvcLs6
 INVARIANTS DumpInv
 VIEW GView
